@@ -92,7 +92,7 @@ def pnvE (c : Cons) (cls num : Nat) (op : Tag → Content → Prog (α × Conten
       if id.cls = cls ∧ id.num = num then
         match readLen c.mode.isBer (g.adv k).view with
         | none => .error .content
-        | some (len?, kl) => bodyF c op ((g.adv k).adv kl) id len?
+        | some (len?, kl) => bodyF c op g.data.length ((g.adv k).adv kl) id len?
       else .ok ((none, c), g)
 
 /-- `process_next_value(Some(expected), op)` on any source without an open capture -/
@@ -109,7 +109,7 @@ theorem pnvE_eq (c : Cons) (cls num : Nat) (hc : cls ≤ 3) (hn : num ≤ 0x1fff
         | none => return (none, c)
         | some (tag, constructed) =>
           let length ← Length.takeFrom c.mode
-          processValueBody c op tag constructed length) g =
+          processValueBody c op g.data.length tag constructed length) g =
       if g.view = [] then .ok ((none, c), g)
       else match readIdent g.view with
         | none => .error .content
@@ -117,7 +117,7 @@ theorem pnvE_eq (c : Cons) (cls num : Nat) (hc : cls ≤ 3) (hn : num ≤ 0x1fff
           if id.cls = cls ∧ id.num = num then
             match readLen c.mode.isBer (g.adv k).view with
             | none => .error .content
-            | some (len?, kl) => bodyF c op ((g.adv k).adv kl) id len?
+            | some (len?, kl) => bodyF c op g.data.length ((g.adv k).adv kl) id len?
           else .ok ((none, c), g) := by
     simp only [runG0_bind, tag_takeFromIf0 cls num hc hn g hf]
     by_cases hv : g.view = []
@@ -135,14 +135,14 @@ theorem pnvE_eq (c : Cons) (cls num : Nat) (hc : cls ≤ 3) (hn : num ≤ 0x1fff
           | none => rfl
           | some r2 =>
             obtain ⟨len?, kl⟩ := r2
-            have hb := pnv_body c op ((g.adv k).adv kl) rfl id ⟨h1 ▸ hc, h2 ▸ hn⟩
+            have hb := pnv_body c op g.data.length ((g.adv k).adv kl) rfl id ⟨h1 ▸ hc, h2 ▸ hn⟩
             rw [h1, h2] at hb
             cases len? with
             | none => simp only; exact hb none
             | some n => simp only; exact hb (some n)
         · simp [hm, runG0_pure]
   unfold processNextValue pnvE
-  simp only [runG0_bind, run_isExhausted]
+  simp only [runG0_bind, run_isExhausted, run_getPos]
   cases hs : c.state with
   | done => simp [runG0_pure]
   | definite =>
@@ -169,10 +169,10 @@ theorem pnvE_eq (c : Cons) (cls num : Nat) (hc : cls ≤ 3) (hn : num ≤ 0x1fff
 /-! ## consequences -/
 
 /-- the only way the value part reports "no value": the end-of-contents of an indefinite parent -/
-theorem bodyF_none (c c' : Cons) (op : Tag → Content → Prog (α × Content)) (g2 g' : G0) (id : Ident)
-    (len? : Option Nat) (h : bodyF c op g2 id len? = .ok ((none, c'), g')) :
+theorem bodyF_none (c c' : Cons) (op : Tag → Content → Prog (α × Content)) (hd : Nat) (g2 g' : G0) (id : Ident)
+    (len? : Option Nat) (h : bodyF c op hd g2 id len? = .ok ((none, c'), g')) :
     isEocIdent id = true ∧ c.state = .indefinite ∧ id.constructed = false ∧ len? = some 0 ∧
-      c' = { c with state := .done } ∧ g' = g2 := by
+      c' = { c with state := .done, eoc := hd - g2.data.length } ∧ g' = g2 := by
   unfold bodyF at h
   by_cases he : isEocIdent id = true
   · simp only [he, if_true] at h
@@ -202,7 +202,8 @@ theorem bodyF_none (c c' : Cons) (op : Tag → Content → Prog (α × Content))
 def ClosesIndefinite (c c' : Cons) (g g' : G0) : Prop :=
   ∃ id k kl, readIdent g.view = some (id, k) ∧ isEocIdent id = true ∧ id.constructed = false ∧
     readLen c.mode.isBer (g.adv k).view = some (some 0, kl) ∧
-    c.state = .indefinite ∧ c' = { c with state := .done } ∧ g' = (g.adv k).adv kl
+    c.state = .indefinite ∧ c' = { c with state := .done, eoc := g.data.length - g'.data.length } ∧
+    g' = (g.adv k).adv kl
 
 /-- **C09 (tag-selective reads).** If a read that expects a tag reports absence, nothing was
     consumed and the `Constructed` is unchanged — unless the expected tag is the end-of-contents tag
@@ -235,10 +236,10 @@ theorem absent_untouched_if (c c' : Cons) (cls num : Nat) (hc : cls ≤ 3) (hn :
                 obtain ⟨len?, kl⟩ := r2
                 rw [hl] at h
                 simp only at h
-                obtain ⟨he, hs, hcn, hz, hc', hg'⟩ := bodyF_none _ _ _ _ _ _ _ h
+                obtain ⟨he, hs, hcn, hz, hc', hg'⟩ := bodyF_none _ _ _ _ _ _ _ _ h
                 have he' := he
                 simp only [isEocIdent, Bool.and_eq_true, beq_iff_eq] at he'
-                refine .inr ⟨hm.1 ▸ he'.1, hm.2 ▸ he'.2, id, k, kl, hr, he, hcn, ?_, hs, hc', hg'⟩
+                refine .inr ⟨hm.1 ▸ he'.1, hm.2 ▸ he'.2, id, k, kl, hr, he, hcn, ?_, hs, hg' ▸ hc', hg'⟩
                 rw [hz] at hl; exact hl
             · simp only [hm, if_false] at h
               simp at h; exact .inl ⟨h.2.symm, h.1.symm⟩
@@ -281,8 +282,8 @@ theorem absent_untouched (c c' : Cons) (op : Tag → Content → Prog (α × Con
               obtain ⟨len?, kl⟩ := r2
               rw [hl] at h
               simp only at h
-              obtain ⟨he, hs, hcn, hz, hc', hg'⟩ := bodyF_none _ _ _ _ _ _ _ h
-              refine .inr ⟨id, k, kl, hr, he, hcn, ?_, hs, hc', hg'⟩
+              obtain ⟨he, hs, hcn, hz, hc', hg'⟩ := bodyF_none _ _ _ _ _ _ _ _ h
+              refine .inr ⟨id, k, kl, hr, he, hcn, ?_, hs, hg' ▸ hc', hg'⟩
               rw [hz] at hl; exact hl
 
 /-- the enclosing value has ended as far as the `Constructed` can tell without reading -/
@@ -323,7 +324,7 @@ theorem absent_iff_if (c : Cons) (cls num : Nat) (hc : cls ≤ 3) (hn : num ≤ 
                 obtain ⟨len?, kl⟩ := r2
                 rw [hl] at h
                 simp only at h
-                obtain ⟨he, _⟩ := bodyF_none _ _ _ _ _ _ _ h
+                obtain ⟨he, _⟩ := bodyF_none _ _ _ _ _ _ _ _ h
                 simp only [isEocIdent, Bool.and_eq_true, beq_iff_eq] at he
                 exact hne ⟨hm.1 ▸ he.1, hm.2 ▸ he.2⟩
             · rintro ⟨id', k', h, hnm⟩
@@ -353,7 +354,7 @@ theorem present_if (c : Cons) (cls num : Nat) (hc : cls ≤ 3) (hn : num ≤ 0x1
     runG0 (processNextValue c (some (C12.tagOf cls num)) op) g =
       match readLen c.mode.isBer (g.adv k).view with
       | none => .error .content
-      | some (len?, kl) => bodyF c op ((g.adv k).adv kl) ⟨cls, b, num⟩ len? := by
+      | some (len?, kl) => bodyF c op g.data.length ((g.adv k).adv kl) ⟨cls, b, num⟩ len? := by
   rw [pnvE_eq c cls num hc hn op g hf]
   unfold pnvE
   have h3 : ¬ (c.state = .definite ∧ g.limit = some 0) := fun ⟨a, b⟩ => hl 0 a b rfl
